@@ -643,8 +643,31 @@ class CacheCheck(Check):
         for fam in order:
             yield {'fam': fam, 'seed': (seed << 32) + i}
             i += 1
+        # complete sweep of one injected event over every yield point of the deterministic base schedule of the
+        # 2-thread scenarios: a stall of the thread at its k-th yield point (C01) resp. loop.stop() at it (C05, C06)
+        for di in range(len(DURS)):
+            for ncall in (1, 2):
+                for th in ('T0', 'T1'):
+                    for k in range(1, 200):
+                        if self.pid == 'C01':
+                            yield {'fam': 'fullsweep', 'dur': di, 'ncall': ncall, 'thread': th, 'k': k, 'then': None}
+                        else:
+                            for then in ('leave', 'close', 'runner'):
+                                yield {'fam': 'fullsweep', 'dur': di, 'ncall': ncall, 'thread': th, 'k': k, 'then': then}
 
     def build(self, case):
+        if case['fam'] == 'fullsweep':
+            dur = DURS[case['dur']]
+            inv = [[dur, False]] * 6
+            cal = [{'key': 0, 'off': 0, 'style': 'await', 'param': 0} for _ in range(case['ncall'])]
+            scen = {'inv': inv, 'cache': 'dict',
+                    'threads': [{'start': 0, 'callers': cal, 'life': 'runner', 'tail': 0, 'pause': 0},
+                                {'start': 0, 'callers': [dict(c) for c in cal], 'life': 'runner', 'tail': 0, 'pause': 0}]}
+            self._delays = None
+            self._gc_at = None
+            if case['then'] is None:
+                return scen, simrt.Strategy('stall', p=0.0, thread=case['thread'], k=case['k'], seed=case['k']), None
+            return scen, simrt.Strategy('none'), {'thread': case['thread'], 'k': case['k'], 'then': case['then']}
         rng = random.Random(case['seed'])
         fam = case['fam']
         inject = None
@@ -782,7 +805,9 @@ class CacheCheck(Check):
         base = ('cases = seeded random scenarios (2-4 threads each with its own SimLoop, 1-3 callers, '
                 'grid arrival offsets, caller styles await/task/timeout/wait_for/cancel, life-cycles '
                 'runner/close-only/never-closed/destroyed), a directed take-over family, and 2-thread '
-                'scenarios under stall / loop-stop injection at a swept yield-point index; distinct = '
+                'scenarios under stall / loop-stop injection at a sampled and (fullsweep family) at every yield-point '
+                'index of the base schedule, timed delays and garbage collections injected at source lines, and (C01, C06) '
+                'batches of free-running real-thread executions (Engine B); distinct = '
                 'distinct (case, sequence of baton moves). ')
         return base + {
             'C01': 'non-trivial = >=2 callers of one key pending at once AND the baton moved inside _wrapper',
